@@ -1425,4 +1425,92 @@ Section Ins.
       unfold insert_spec_b, insert_iso_b, insert_frame_b. now rewrite H1, H2, H3, H4, H5, H6.
     Qed.
   End Monitor.
+
+  (* ---------------------------------------------------------------- the builders' wrappers *)
+  Fixpoint wire_links (node : nid) (i : Z) (ws : list port) : list (port * port) :=
+    match ws with [] => [] | w :: r => (w, (node, i)) :: wire_links node (i + 1) r end.
+  Definition shape4 (d : node_data) := (nd_op d, nd_parent d, nd_children d, nd_meta d).
+
+  Lemma bump_shape4 (h h' : hugr) s t x :
+    option_map anode_of (get_node h' x) = option_map (bump s t x) (option_map anode_of (get_node h x)) ->
+    option_map shape4 (get_node h' x) = option_map shape4 (get_node h x).
+  Proof.
+    destruct (get_node h' x) as [d'|], (get_node h x) as [d|]; cbn; try discriminate; [|reflexivity].
+    intros [= H1 H2 H3 H4 _ _]. unfold shape4. congruence.
+  Qed.
+
+  Lemma wire_up_ok ws : forall (h : hugr) node i, Inv h -> get_node h node <> None -> (0 <= i)%Z ->
+    (forall w, In w ws -> get_node h (fst w) <> None /\ (-1 <= snd w)%Z) ->
+    exists h', wire_up h node i ws = (h', Ok) /\ Inv h' /\ root h' = root h /\
+      Permutation (q_links h') (q_links h ++ wire_links node i ws) /\
+      forall x, option_map shape4 (get_node h' x) = option_map shape4 (get_node h x).
+  Proof.
+    induction ws as [|w rest IH]; intros h node i HI Hn Hi Hws; cbn [wire_up wire_links].
+    - exists h. split; [reflexivity|]. split; [assumption|]. split; [reflexivity|]. split; [now rewrite app_nil_r|reflexivity].
+    - destruct (Hws w ltac:(now left)) as [Hw Hwo].
+      destruct (add_link_pt h w (node, i) HI Hw Hn Hwo) as (h1 & Hadd & HI1 & Hr1 & HP1 & Hpt1); [cbn; lia|].
+      rewrite Hadd.
+      assert (Hsh1 : forall x, option_map shape4 (get_node h1 x) = option_map shape4 (get_node h x))
+        by (intros x; eapply bump_shape4; apply Hpt1).
+      assert (Hlive1 : forall x, get_node h x <> None -> get_node h1 x <> None).
+      { intros x Hx E. specialize (Hsh1 x). rewrite E in Hsh1. destruct (get_node h x); [discriminate|congruence]. }
+      destruct (IH h1 node (i + 1)%Z HI1 (Hlive1 _ Hn) ltac:(lia)) as (h' & Hw' & HI' & Hr' & HP' & Hsh').
+      { intros w0 Hin. destruct (Hws w0 ltac:(now right)) as [H1 H2]. split; [now apply Hlive1|assumption]. }
+      exists h'. split; [exact Hw'|]. split; [exact HI'|]. split; [now rewrite Hr'|]. split.
+      + rewrite HP', HP1, <- app_assoc. reflexivity.
+      + intros x. now rewrite Hsh', Hsh1.
+  Qed.
+
+  Lemma update_port_count_ok (h : hugr) n ki ko : get_node h n <> None ->
+    exists h', update_port_count h n ki ko = (h', Ok) /\ links h' = links h /\ root h' = root h /\
+      forall x, option_map shape4 (get_node h' x) = option_map shape4 (get_node h x).
+  Proof.
+    intros Hn. destruct (get_node h n) as [d|] eqn:Ed; [|congruence]. unfold update_port_count.
+    assert (Hset : forall (h0 : hugr) d0 d1, get_node h0 n = Some d0 -> shape4 d1 = shape4 d0 ->
+              forall x, option_map shape4 (get_node (set_node h0 n d1) x) = option_map shape4 (get_node h0 x)).
+    { intros h0 d0 d1 E S x. rewrite get_set_node by (eapply get_node_lt; eassumption).
+      destruct (Nat.eqb_spec x n) as [->|]; [|reflexivity]. rewrite E. cbn. now rewrite S. }
+    destruct ki as [ki|], ko as [ko|].
+    - rewrite Ed. rewrite get_set_node by (eapply get_node_lt; eassumption). rewrite Nat.eqb_refl.
+      eexists. split; [reflexivity|]. split; [reflexivity|]. split; [reflexivity|]. intros x.
+      assert (E1 : get_node (set_node h n (set_inps d ki)) n = Some (set_inps d ki))
+        by (rewrite get_set_node by (eapply get_node_lt; eassumption); now rewrite Nat.eqb_refl).
+      rewrite (Hset (set_node h n (set_inps d ki)) (set_inps d ki) (set_outs (set_inps d ki) ko) E1 eq_refl).
+      now rewrite (Hset h d (set_inps d ki) Ed eq_refl).
+    - rewrite Ed. eexists. split; [reflexivity|]. split; [reflexivity|]. split; [reflexivity|]. now apply (Hset h d).
+    - rewrite Ed. eexists. split; [reflexivity|]. split; [reflexivity|]. split; [reflexivity|]. now apply (Hset h d).
+    - exists h. repeat split; reflexivity.
+  Qed.
+
+  (* insert_nested / insert_cfg / insert_conditional / insert_tail_loop: the insertion of C08_insert_iso_and_frame,
+     then exactly one link per wire into the image of the root at offsets 0, 1, ...; operations, hierarchy and
+     metadata of all nodes are those of the plain insertion (only port counts may be re-declared) *)
+  Theorem insert_wrappers_attach_wires (A B : hugr) (p : nid) (ws : list port) ki ko :
+    Inv A -> Inv B -> WF B -> get_node A p <> None ->
+    (forall w, In w ws -> get_node A (fst w) <> None /\ (-1 <= snd w)%Z) ->
+    exists A' A'' m r',
+      insert_hugr A B (Some p) = (A', m, Ok) /\ IsoFrame A B p m A' /\ mget m (root B) = Some r' /\
+      insert_wrapped A B p ws ki ko = (A'', m, Ok) /\ root A'' = root A /\
+      Permutation (q_links A'') (q_links A' ++ wire_links r' 0 ws) /\
+      forall x, option_map shape4 (get_node A'' x) = option_map shape4 (get_node A' x).
+  Proof.
+    intros HIA HIB HWF HpA Hws.
+    destruct (insert_ok A B (Some p) HIA HIB HWF HpA) as (A' & m & Hins & HI' & HIF). cbn in HIF.
+    pose proof HIB as (_ & _ & _ & ((rb & Erb & _) & _)).
+    assert (Hr : exists r', mget m (root B) = Some r').
+    { destruct (mget m (root B)) as [r'|] eqn:E; [eauto|]. exfalso. apply (proj2 (if_dom _ _ _ _ _ HIF (root B))); congruence. }
+    destruct Hr as (r' & Er).
+    destruct (if_copy _ _ _ _ _ HIF _ _ _ Er Erb) as (dr & Edr & _).
+    destruct (wire_up_ok ws A' r' 0%Z HI' ltac:(congruence) ltac:(lia)) as (A2 & Hwu & HI2 & Hr2 & HP2 & Hsh2).
+    { intros w Hin. destruct (Hws w Hin) as [H1 H2]. split; [|assumption].
+      destruct (get_node A (fst w)) as [d|] eqn:Ed; [|congruence]. rewrite (if_old _ _ _ _ _ HIF _ _ Ed). discriminate. }
+    assert (Hlive2 : get_node A2 r' <> None).
+    { intros E. specialize (Hsh2 r'). rewrite E, Edr in Hsh2. discriminate. }
+    destruct (update_port_count_ok A2 r' ki ko Hlive2) as (A3 & Hup & Hl3 & Hr3 & Hsh3).
+    exists A', A3, m, r'. split; [exact Hins|]. split; [exact HIF|]. split; [exact Er|].
+    unfold insert_wrapped. rewrite Hins, Er, Hwu, Hup. split; [reflexivity|].
+    split; [now rewrite Hr3, Hr2, (if_root _ _ _ _ _ HIF)|]. split.
+    - unfold q_links at 1. rewrite Hl3. exact HP2.
+    - intros x. now rewrite Hsh3, Hsh2.
+  Qed.
 End Ins.
